@@ -504,6 +504,7 @@ def _world(tier):
         for s in load_sql(docs):
             cur.execute(s)
         raw = observe.raw(fs)
+        raw.execute("set threads = 1")  # 16 worker processes: keep DuckDB from oversubscribing the cores (no effect on results)
         raw.execute("create or replace table db1.s1.kk (k tinyint, t integer, id integer, x boolean)")
         for s in split_setup(range(len(SPLIT_STRINGS))):
             cur.execute(s)
